@@ -12,7 +12,7 @@ RULE = ('field lists of 0..6 parts, text and file parts interleaved, empty value
         'x boundary strings (alnum and \'+_-.) x max_memfile_size below/above the body (text inside the in-memory budget) x Content-Length or '
         'chunked framing x fragmenting stream; through Ombott.__call__. Non-trivial = more than one part or a special character or adversarial '
         'content; distinct = distinct request body.')
-REQUIRED = ['posts', 'text_parts', 'file_parts', 'repeated_text_names', 'repeated_file_names', 'mixed_repeated_names', 'names_with_semicolon',
+REQUIRED = ['interleaved_upload_reads', 'posts', 'text_parts', 'file_parts', 'repeated_text_names', 'repeated_file_names', 'mixed_repeated_names', 'names_with_semicolon',
             'names_with_equals', 'names_with_space', 'names_with_backslash', 'non_ascii_names', 'filenames_with_semicolon', 'spooled_to_disk',
             'chunked_framing', 'adversarial_content', 'empty_file_content', 'bytes_compared', 'zero_parts']
 ASSUMPTIONS = ['names and file names contain no double quote, CR or LF and are non-empty (an empty file name is the browser\'s "no file chosen" and is treated as a text field by design)',
@@ -191,6 +191,17 @@ def build_app(seen):
         seen['files'] = {k: plain(v) for k, v in rq.files.items()}
         seen['post'] = {k: plain_post(v) for k, v in rq.POST.items()}
         seen['order'] = list(rq.POST)
+        # uploads read in two interleaved passes (a sniff of every file first, then the rest of each): all uploads of a
+        # request are windows onto one buffered body
+        ups = []
+        for k, v in rq.files.items():
+            for u in (v if isinstance(v, list) else [v]):
+                ups.append(u)
+        heads = []
+        for u in ups:
+            u.file.seek(0)
+            heads.append(u.file.read(4))
+        seen['interleaved'] = [h + u.file.read() for h, u in zip(heads, ups)]
         seen['body_type'] = type(rq.body).__name__
         return 'ok'
     return app
@@ -287,6 +298,13 @@ def one_post(ctx, app, seen, rng, fields, boundary, framing, B, policy, wit):
     if seen['body_type'] != 'BytesIO':
         ctx.count('spooled_to_disk')
     forms, files, post = model(fields)
+    exp_inter = [f['content'] for f in sorted((f for f in fields if f['kind'] == 'file'), key=lambda f: list(files).index(f['name']))]
+    if len(exp_inter) > 1:
+        ctx.count('interleaved_upload_reads')
+    if seen.get('interleaved') != exp_inter:
+        ctx.violation('files:interleaved-partial-reads-leave-the-part', f'{where}: sent {show(fields)}; reading 4 bytes of every upload and then the rest of each gave '
+                      f'{[x[:30] for x in seen.get("interleaved", [])]}', wit)
+        return
     ctx.count('bytes_compared', sum(len(f.get('content', b'')) for f in fields))
     for what, exp, got in (('forms', forms, seen['forms']), ('files', files, seen['files']), ('POST', post, seen['post'])):
         sig = diff_sig(exp, got, what)
